@@ -73,6 +73,7 @@ RestrictNames(names) == [G EXCEPT !.names = SelectSeq(G.names, LAMBDA c : c \in 
 C05Clause(ev) ==
     CASE ev.e = "analysis" ->
            IF ev.exc # "" THEN "C05:extract-raises"
+           ELSE IF ev.impl.expd # ev.mode THEN "C05:depth-mode-not-honoured"    \* the grammar counts depth in another mode than requested
            ELSE IF ~AltsOK(ev.impl) THEN "C05:alternatives"
            ELSE IF DistApplies(ev.impl) /\ DistBad(ev.impl) # {} THEN "C05:min-depth"
            ELSE IF ~RecOK(ev.impl) THEN "C05:recursive"
@@ -89,6 +90,7 @@ C05Clause(ev) ==
 
 C05Attrs(ev) ==
     CASE ev.e \in {"analysis", "usable"} /\ ev.exc # "" -> <<ev.exc>>
+      [] ev.e = "analysis" /\ ev.impl.expd # ev.mode -> <<IF ev.mode THEN "expansion-requested" ELSE "default-requested">>
       [] ev.e = "analysis" /\ ~AltsOK(ev.impl) -> <<>>
       [] ev.e = "analysis" /\ DistApplies(ev.impl) /\ DistBad(ev.impl) # {} -> DistSig(ev.impl)
       [] ev.e = "analysis" -> RecSig(ev.impl)
